@@ -7,6 +7,7 @@ import NucsProofs.Propagators.Counting
 import NucsProofs.Propagators.Dummy
 import NucsProofs.Propagators.Element
 import NucsProofs.Propagators.ExactOfSupport
+import NucsProofs.Propagators.GccCIsPort
 import NucsProofs.Propagators.GccExact
 import NucsProofs.Propagators.GccLbcFinal
 import NucsProofs.Propagators.GccPortSound
